@@ -81,6 +81,10 @@ impl Add<SystemTime> for IggyTimestamp {
 
 impl Default for IggyTimestamp {
     fn default() -> Self {
+        #[cfg(feature = "iggy_verif")]
+        if let Some(micros) = crate::verif::now_micros() {
+            return Self(UNIX_EPOCH + Duration::from_micros(micros));
+        }
         Self(SystemTime::now())
     }
 }
